@@ -1344,6 +1344,9 @@ fn gen_world(ch: &mut Choices<'_>, st: &mut Stats, rich: bool) -> World {
         }
     }
     gen_.finish_scheme();
+    if gen_.r.fields.len() > 64 {
+        st.class("world:wide-scheme");
+    }
     let alias: Vec<u8> = (0..4).map(|_| gen_.ch.draw(2) as u8).collect();
     let style = Style { alias, space: vec![1] };
     let mut recipe = gen_.r.clone();
